@@ -115,6 +115,8 @@ fn run_worker(page_pool: PagePool, command_rx: Receiver<IoPacket>) {
                 };
 
                 let complete = CompleteIo { command, result };
+                #[cfg(feature = "verif-hooks")]
+                super::verif::on_complete(&complete);
                 let _ = completion_sender.send(complete);
             }
         } else if shutdown {
@@ -157,6 +159,13 @@ fn run_worker(page_pool: PagePool, command_rx: Receiver<IoPacket>) {
                         break;
                     }
                 }
+            };
+
+            // Verification hook: report the submission of a write; the observer may ask for it to fail.
+            #[cfg(feature = "verif-hooks")]
+            let next_io = match super::verif::on_submit(next_io) {
+                Some(next_io) => next_io,
+                None => continue,
             };
 
             to_submit = true;
